@@ -121,6 +121,8 @@ add("F100b", "C14", "fixed", "'1/1/2040 as unix' printed 2147483647: raw timesta
 # ---- C03 / C04 / C08 / C16 / C17 ---------------------------------------------------------------
 def nm(i): return {"Name": [i, 0, 0]}
 def lt(s): return {"Lit": s}
+add("F32", "C03", "fixed", "'rent = 5' / 'big rent = 10 + 1 hour' (fails) / 'big rent * 2' was an error instead of 10: a first assignment that failed in the interpreter left a name without a value behind, which took precedence over 'rent'",
+    {"sub": "failed-lines-leave-no-trace", "case": {"lines": ["rent = 5", "big rent = 10 + 1 hour", "big rent * 2"]}}, commit="ff023e3")
 add("F30", "C03", "fixed", "'du = 90 seconds' / 'du as minutes' stayed 1 minute 30 seconds: as_duration ignored variable sources",
     {"sub": "programs", "case": {"stmts": [{"Assign": [3, 0, 0, {"One": lt("90 seconds")}]}, {"Use": {"Suffix": [nm(3), "as minutes"]}}]}}, commit="c8e7a0c")
 add("F31", "C03", "fixed", "'rent = 10 usd' / '-rent' was an unknown calculation: a leading sign was evaluated as '0 - x', which only works for plain numbers",
